@@ -51,6 +51,7 @@ def model():
             group = orm.Optional('Group')
             courses = orm.Set('Course')
             tags = orm.Set('Tag')          # reverse side required => cascade delete
+            locker = orm.Optional('Locker')
 
         class Tag(db.Entity):
             id = orm.PrimaryKey(int)
@@ -60,6 +61,10 @@ def model():
         class Passport(db.Entity):
             id = orm.PrimaryKey(int)
             person = orm.Required(Person)
+
+        class Locker(db.Entity):
+            id = orm.PrimaryKey(int)
+            owner = orm.Optional(Person)
 
         class Group(db.Entity):
             id = orm.PrimaryKey(int)
@@ -74,11 +79,12 @@ def model():
             c1 = Course(id=1); c2 = Course(id=2); c3 = Course(id=3)
             p1 = Person(id=1, name='p1', email='e1', u=10, a=1, b=1, c=1, group=g1, courses=[c1])
             p2 = Person(id=2, name='p2', email='e2', u=20, a=2, b=2, c=2, group=g1, courses=[c1, c2])
-            p3 = Person(id=3, name='p3', u=30, a=3, b=3, c=3)
+            p3 = Person(id=3, name='p3', u=30, a=3, b=3, c=3, group=g2, courses=[c2])
             p4 = Person(id=4, name='p4', u=40, a=4, b=4, c=4)
             Passport(id=1, person=p1)
+            Locker(id=1, owner=p1); Locker(id=2); Locker(id=3, owner=p2)
             Tag(id=1, code=100, owner=p1); Tag(id=2, code=200, owner=p1); Tag(id=3, code=300, owner=p3)
-        _M = types.SimpleNamespace(db=db, Person=Person, Passport=Passport, Group=Group, Course=Course, Tag=Tag)
+        _M = types.SimpleNamespace(db=db, Person=Person, Passport=Passport, Group=Group, Course=Course, Tag=Tag, Locker=Locker)
     return _M
 
 
@@ -251,6 +257,10 @@ def _ops(M):
         'collection clear': lambda: G[1].students.clear(),
         'delete with required dependent': lambda: P[1].delete(),
         'delete plain (cascades to tags)': lambda: P[3].delete(),
+        'locker swap to free': lambda: setattr(P[1], 'locker', M.Locker[2]),
+        'locker steal': lambda: setattr(P[1], 'locker', M.Locker[3]),
+        'locker release': lambda: setattr(P[1], 'locker', None),
+        'locker owner reassign': lambda: setattr(M.Locker[1], 'owner', P[2]),
         'tag move': lambda: setattr(M.Tag[1], 'owner', P[2]),
         'tag code conflict': lambda: setattr(M.Tag[1], 'code', 200),
         'delete course': lambda: C[1].delete(),
@@ -287,7 +297,7 @@ def _hc_case(cfg, values):
         core.local.db_context_counter = 1
         cache = st['cache'] = M.db._get_cache()
         # load everything the operations touch, so that snapshots are comparable (loading is not a modification)
-        for e in (M.Person, M.Passport, M.Group, M.Course, M.Tag):
+        for e in (M.Person, M.Passport, M.Group, M.Course, M.Tag, M.Locker):
             for o in e.select():
                 for a in e._attrs_:
                     if a.is_collection: getattr(o, a.name).load()
